@@ -128,6 +128,31 @@ def run(chk, replay=None):
                     chk.violation('gen:bin1d_vec:%s:%s:%s:%s' % (cls, where, 'open' if open_ else 'closed', how),
                                   {'kind': 'bin', 'grid': [start, step], 'edges': edges, 'open': open_, 'pos': pos,
                                    'values': vals, 'allowed': allowed, 'got': repr(r), 'how': how})
+    # 2b. the far ends of the float64 range: a value at or above the last edge of an open-ended grid goes to the last bin
+    # however large it is (the index computed on the way exceeds every integer type), a value below the first edge is
+    # out of range however negative
+    inf = float('inf')
+    for gi, (start, step) in enumerate(grids):
+        for n in (1, 2, 4, 31):
+            edges = exact_edges(start, step, n)
+            top = edges[-1]
+            hf = float(step)
+            for open_ in (True, False):
+                if n == 1 and not open_:
+                    continue          # a single edge is always treated as open-ended
+                huge = [inf, 1.7976931348623157e308, 1e300, 1e100, 1e19, float(2.0 ** 63) * hf + top, float(2.0 ** 64) * hf, 1e18]
+                huge = [v for v in huge if v > top + 2 * hf]
+                low = [-inf, -1.7976931348623157e308, -1e300, -1e19, -float(2.0 ** 63) * hf + edges[0], -1e18]
+                low = [v for v in low if v < edges[0] - 2 * hf]
+                for how in ('array', 'scalar', 'list'):
+                    for vals, want, where in ((huge, n - 1 if open_ else -1, 'far-above'), (low, -1, 'far-below')):
+                        r = call_bin(calc, numpy, vals, edges, open_, how)
+                        chk.count(len(vals))
+                        if isinstance(r, Raised) or any(x != want for x in r):
+                            chk.violation('gen:bin1d_vec:extreme:%s:%s:%s' % (where, 'open' if open_ else 'closed', how),
+                                          {'kind': 'bin', 'grid': [start, step], 'edges': edges, 'open': open_, 'values': vals,
+                                           'allowed': [want], 'got': repr(r), 'how': how})
+                chk.nontrivial('extreme|%s|%s|%d' % (start, step, n))
     missing = set(table) - realised
     # positions that cannot be realised at all (e.g. class 0 of the virtual edge) are reported, not hidden
     chk.notes['abstract_cases'] = len(table)
